@@ -45,6 +45,14 @@ def quant_values(kind: str, n: int, start: int, step: int):
         return [1.0 + (k - start) * 1e-5 for k in ks]
     if kind == "half":
         return [k * 0.5 for k in ks]
+    if kind == "ulp":  # neighbouring doubles: distinct values that agree to 16 significant digits
+        import math
+
+        vals, v = [], 1.0
+        for _ in range(min(n, 12)):
+            vals.append(v)
+            v = math.nextafter(v, 2.0)
+        return vals
     if kind == "tenth":  # not exactly representable: float32 and float64 versions differ
         return sorted({k * 0.1 for k in ks})
     raise ValueError(kind)
@@ -96,7 +104,7 @@ def target_spec(draw, kinds=("binary", "continuous")):
         elif flavour == "str":
             levels = ["cls_a", "B", "c", "dd", "E"][:n_levels]
         else:
-            levels = [2, 10, 1, 33, 5][:n_levels]  # string order differs from numeric order
+            levels = [2, 10, 33, 5, 100][:n_levels]  # string order differs from numeric order ("10" < "2")
         blocks = [draw(st.integers(6, 90)) for _ in levels]
     return {"kind": kind, "levels": levels, "blocks": blocks}
 
@@ -113,7 +121,7 @@ def feature_spec(draw, name, kind, blocks, dev_mode, dev_blocks, quant_pools=Non
         spec["pool"] = pool
     elif kind == "discrete":
         n_mod = draw(st.integers(2, 15))
-        pool = draw(st.sampled_from(quant_pools or ["small_int", "small_int", "dyadic", "half", "yyyymm", "near", "big"]))
+        pool = draw(st.sampled_from(quant_pools or ["small_int", "small_int", "dyadic", "half", "yyyymm", "near", "big", "ulp"]))
         values = quant_values(pool, n_mod, draw(st.integers(-5, 5)), draw(st.sampled_from([1, 1, 2, 10])))
         wpool = WEIGHTS
         spec["pool"] = pool
